@@ -15,7 +15,7 @@
     * a non-fitting assignment is rejected with ValueError and leaves the table rectangular
                                                                       `setitem_reject`, `setitem_reject_step`, `err_unchanged`
 -/
-import PygProofs.Lemmas.TableRows
+import PygProofs.Lemmas.TableCons
 
 namespace Pyg.Props.C01
 open Pyg Table
@@ -407,6 +407,189 @@ theorem concat_rows (ts : List Table) (hr : ∀ t ∈ ts, ∃ n, t.Rect n) (hk :
   apply List.map_congr_left
   intro j _
   simp [row, Table.concat, List.map_map, Function.comp_def]
+
+/-! ### construction -/
+
+/-- keyword columns with scalar broadcasting (`dictable(a = [1,2,3], b = 'x', c = [7])`): the constructor
+raises `ValueError` exactly when two values have different lengths other than 1; otherwise the table has
+the given columns in order, each value of length 1 (a scalar, `None`, a one-element list) repeated to the
+common length `n` -/
+theorem new_columns (kw : List (String × ColVal)) (hn : (kw.map (·.1)).Nodup) :
+    (construct .none Option.none kw = some (.error .value) ↔
+      ∃ a ∈ kw, ∃ b ∈ kw, a.2.value.length ≠ 1 ∧ b.2.value.length ≠ 1 ∧ a.2.value.length ≠ b.2.value.length) ∧
+    (∀ t, construct .none Option.none kw = some (.ok t) →
+      ∃ n, lens (kw.map fun kv => kv.2.value.length) = .ok n ∧ t.Rect n ∧
+        t = kw.map fun kv => (kv.1, bcast n kv.2.value)) := by
+  have hof : ofPairs (kw.map fun kv => (kv.1, kv.2.value)) = kw.map fun kv => (kv.1, kv.2.value) :=
+    ofPairs_of_nodup _ (by simpa [List.map_map, Function.comp_def] using hn)
+  have hc : construct .none Option.none kw = some (Table.finish (kw.map fun kv => (kv.1, kv.2.value))) := by
+    simp only [construct, dataCols, Table.updateWith, List.foldl_nil, hof]
+  have hlen : Table.len (kw.map fun kv => (kv.1, kv.2.value)) = lens (kw.map fun kv => kv.2.value.length) := by
+    simp [Table.len, List.map_map, Function.comp_def]
+  rw [hc]
+  constructor
+  · simp only [Option.some.injEq, Table.finish, hlen]
+    constructor
+    · intro h
+      have hl : lens (kw.map fun kv => kv.2.value.length) = .error .value := by
+        split at h
+        · rename_i e he; cases h; exact he
+        · cases h
+      obtain ⟨a, ha, b, hb, h1, h2, h3⟩ := (lens_error_iff _).1 hl
+      obtain ⟨a', ha', rfl⟩ := List.mem_map.1 ha
+      obtain ⟨b', hb', rfl⟩ := List.mem_map.1 hb
+      exact ⟨a', ha', b', hb', h1, h2, h3⟩
+    · rintro ⟨a, ha, b, hb, h1, h2, h3⟩
+      have hl : lens (kw.map fun kv => kv.2.value.length) = .error .value :=
+        (lens_error_iff _).2 ⟨_, List.mem_map.2 ⟨a, ha, rfl⟩, _, List.mem_map.2 ⟨b, hb, rfl⟩, h1, h2, h3⟩
+      rw [hl]
+  · intro t ht
+    simp only [Option.some.injEq] at ht
+    obtain ⟨m, hm⟩ := finish_ok_rect ht
+    simp only [Table.finish, hlen] at ht
+    split at ht
+    · cases ht
+    · rename_i n hn'
+      cases ht
+      refine ⟨n, hn', ?_, by simp [List.map_map, Function.comp_def]⟩
+      intro c hc'
+      simp only [List.map_map, List.mem_map, Function.comp] at hc'
+      obtain ⟨kv, hkv, rfl⟩ := hc'
+      exact bcast_length (lens_ok hn' _ (List.mem_map.2 ⟨kv, hkv, rfl⟩))
+
+/-- construction from records: one column per key of any record (first appearance), one row per record,
+`None` where a record lacks the key -/
+theorem new_records (rs : List (List (String × Cell))) (hne : rs ≠ []) :
+    construct (.recs rs) Option.none [] = some (.ok (dictConcat rs)) ∧
+    (dictConcat rs).Rect rs.length ∧
+    (dictConcat rs).cols = dedupKeys (rs.flatMap fun r => r.map (·.1)) ∧
+    ((dictConcat rs).cols ≠ [] →
+      (dictConcat rs).rows = rs.map fun r => (dictConcat rs).cols.map fun k =>
+        ((r.reverse.find? (·.1 == k)).map (·.2)).getD .none) := by
+  have hnd : (dictConcat rs).cols.Nodup := by rw [cols_dictConcat]; exact nodup_dedupKeys _
+  refine ⟨?_, dictConcat_rect rs, cols_dictConcat rs, ?_⟩
+  · obtain ⟨r, rest, rfl⟩ := List.exists_cons_of_ne_nil hne
+    have h1 : construct (.recs (r :: rest)) Option.none [] =
+        some (Table.finish (ofPairs (dictConcat (r :: rest)))) := rfl
+    rw [h1, ofPairs_self_of_nodup _ hnd, finish_rect (dictConcat_rect _)]
+  · intro hk
+    have hne' : dictConcat rs ≠ [] := by intro he; rw [he] at hk; exact hk rfl
+    unfold rows
+    rw [nrows_of_rect (dictConcat_rect rs) hne']
+    apply List.ext_getElem
+    · simp
+    · intro i h1 h2
+      simp only [List.getElem_map, List.getElem_range]
+      simp only [List.length_map, List.length_range] at h1
+      simp [row, cols, dictConcat, List.map_map, Function.comp_def, List.getD_eq_getElem?_getD, h1]
+
+/-! ### derived columns, renaming, projection -/
+
+/-- `d(k = f)` / `d[k] = d[f]`: the new column holds `f(row)` for every row, every other column is
+untouched, and the table keeps its rows -/
+theorem derived_column (t t' : Table) (n : Nat) (hr : t.Rect n) (hne : t ≠ []) (k : String) (f : Fn)
+    (h : t.setFn (k, f) = .ok t') :
+    ∃ vs, t'.col? k = some vs ∧ vs.length = n ∧
+      (∀ i (hi : i < vs.length), f.eval (t.cellAt i) = .ok vs[i]) ∧
+      (∀ k', k' ≠ k → t'.col? k' = t.col? k') ∧ t'.Rect n := by
+  unfold setFn at h
+  split at h
+  · cases h
+  · rename_i vs hvs
+    have hlen : vs.length = n := by
+      have := mapE_ok_length hvs
+      simpa [nrows_of_rect hr hne] using this
+    have hset : t.setitem k (.many vs) = .ok (t.set k vs) := by
+      have hemp : t.isEmpty = false := by cases t <;> simp_all
+      simp [setitem, len_rect hr hne, ColVal.value, hlen]
+    simp only at h
+    rw [hset] at h
+    cases h
+    refine ⟨vs, by simp [col?_set], hlen, ?_, fun k' hk' => by simp [col?_set, hk'], set_rect hr hlen⟩
+    intro i hi
+    have := mapE_ok_getElem hvs i (by simpa [mapE_ok_length hvs] using hi) hi
+    simpa using this
+
+/-- renaming without collisions renames the columns in place and keeps every record -/
+theorem relabel_rows (t : Table) (r : Relabel) (hinj : (t.cols.map r.key).Nodup) :
+    (t.relabel r).cols = t.cols.map r.key ∧ (t.relabel r).rows = t.rows ∧
+      (t.relabel r).map (·.2) = t.map (·.2) := by
+  have h : t.relabel r = t.map fun c => (r.key c.1, c.2) := by
+    unfold relabel
+    apply ofPairs_of_nodup
+    simpa [cols, List.map_map, Function.comp_def] using hinj
+  rw [h]
+  refine ⟨by simp [cols, List.map_map, Function.comp_def], ?_, by simp [List.map_map, Function.comp_def]⟩
+  cases t with
+  | nil => rfl
+  | cons c t => simp [rows, nrows, row, List.map_map, Function.comp_def]
+
+/-- projection on distinct existing columns: exactly those columns, in the requested order, unchanged -/
+theorem proj_cols (t t' : Table) (ks : List String) (hks : ks ≠ []) (hn : ks.Nodup)
+    (h : t.getProj ks = .ok t') :
+    t'.cols = ks ∧ ∀ k ∈ ks, t'.col? k = t.col? k ∧ (t.col? k).isSome := by
+  unfold getProj at h
+  have : ks.isEmpty = false := by cases ks <;> simp_all
+  simp only [this, Bool.false_eq_true, if_false] at h
+  split at h
+  · cases h
+  · rename_i kvs hkvs
+    cases h
+    -- every pair is (k, column k of t)
+    have hall : ∀ (ks : List String) (kvs : List (String × List Cell)),
+        mapE (fun k => match t.getColE k with | .ok c => Except.ok (k, c) | .error e => .error e) ks = .ok kvs →
+        kvs.map (·.1) = ks ∧ ∀ kv ∈ kvs, t.col? kv.1 = some kv.2 := by
+      intro ks
+      induction ks with
+      | nil => intro kvs h; simp [mapE] at h; subst h; simp
+      | cons k ks ih =>
+        intro kvs h
+        simp only [mapE] at h
+        split at h
+        · cases h
+        · rename_i y hy
+          split at h
+          · cases h
+          · rename_i ys hys
+            cases h
+            obtain ⟨h1, h2⟩ := ih ys hys
+            unfold getColE at hy
+            cases hc : t.col? k with
+            | none => simp [hc] at hy
+            | some c =>
+              simp only [hc, Except.ok.injEq] at hy
+              subst hy
+              refine ⟨by simp [h1], ?_⟩
+              intro kv hkv
+              rcases List.mem_cons.1 hkv with rfl | hm
+              · exact hc
+              · exact h2 kv hm
+    obtain ⟨h1, h2⟩ := hall ks kvs hkvs
+    have hof : ofPairs kvs = kvs := ofPairs_of_nodup kvs (by rw [h1]; exact hn)
+    rw [hof]
+    refine ⟨h1, ?_⟩
+    intro k hk
+    rw [← h1] at hk
+    obtain ⟨kv, hkv, rfl⟩ := List.mem_map.1 hk
+    have hc := h2 kv hkv
+    refine ⟨?_, by simp [hc]⟩
+    rw [hc]
+    -- the first pair with key kv.1 is kv itself (keys are distinct)
+    have hnd : (kvs.map (·.1)).Nodup := by rw [h1]; exact hn
+    clear hof h1 h2 hkvs hk
+    unfold col?
+    induction kvs with
+    | nil => cases hkv
+    | cons a as ih =>
+      rw [List.map_cons, List.nodup_cons] at hnd
+      simp only [List.find?_cons]
+      rcases List.mem_cons.1 hkv with rfl | hm
+      · simp
+      · have : (a.1 == kv.1) = false := by
+          have : a.1 ≠ kv.1 := fun he => hnd.1 (he ▸ List.mem_map.2 ⟨kv, hm, rfl⟩)
+          simpa using this
+        simp only [this]
+        exact ih hm hnd.2
 
 /-! ### non-vacuity: the hypotheses are satisfiable on non-trivial values -/
 
